@@ -21,7 +21,7 @@ pub struct IfStatement {
 impl Dependencies for IfStatement {
     fn dependencies(&self) -> Vec<super::Dependency> {
         let mut value_deps = self.value.net_dependencies();
-        value_deps.append(&mut self.body.net_dependencies());
+        value_deps.append(&mut self.body.net_dependencies_within_function());
 
         if let Some(ref else_statement) = self.else_statement {
             value_deps.append(&mut else_statement.net_dependencies());
@@ -93,7 +93,7 @@ pub enum ElseStatement {
 impl Dependencies for ElseStatement {
     fn dependencies(&self) -> Vec<super::Dependency> {
         match self {
-            Self::Block(block) => block.net_dependencies(),
+            Self::Block(block) => block.net_dependencies_within_function(),
             Self::IfStatement(if_statement) => if_statement.net_dependencies(),
         }
     }
